@@ -368,8 +368,13 @@ class CellVariable:
         CellVariable
             Copy of the CellVariable.
         """
-        return CellVariable(self.domain, np.copy(self._value),
-                            deepcopy(self.BCs))
+        newvar = CellVariable(self.domain, np.copy(self._value),
+                              deepcopy(self.BCs))
+        # The ghost cells are copied as they are: the copy's ghost cells are 
+        # outdated if and only if those of the original are.
+        newvar._BCs_applied = self._BCs_applied
+        newvar.value.modified = self.value.modified
+        return newvar
     
     def plotprofile(self):
         """
